@@ -646,3 +646,19 @@ func instrSite(prog *ssa.Program, in ssa.Instruction) string {
 	}
 	return fmt.Sprintf("%s@%s:%d", fn, p.Filename, p.Line)
 }
+
+// RunOnce executes the harness on one concrete input vector (no exploration).
+func (e *Explorer) RunOnce(spec HarnessSpec, inputs map[string]uint64) (*interp.Result, error) {
+	fn := e.P.FindFunc(spec.Name)
+	if fn == nil {
+		return nil, fmt.Errorf("harness %s not found", spec.Name)
+	}
+	if e.redirect == nil {
+		if err := e.buildRedirects(); err != nil {
+			return nil, err
+		}
+	}
+	e.spec, e.fn = spec, fn
+	e.inits = e.P.InitOrder(initAllowed)
+	return interp.Execute(e.baseConfig(inputs), fn), nil
+}
